@@ -2009,12 +2009,12 @@ class MZgate(Gate):
         super().__init__([phi_in, phi_ex])
 
     def apply(self, reg, backend, **kwargs):
-        z = self.p[0]
-        if par_is_symbolic(z) or np.any(z != 0):
-            return super().apply(reg, backend, **kwargs)
-        # Gate.apply skips gates with p[0] == 0 as identities, but for phi_in = 0
-        # the interferometer is not the identity
-        return Operation.apply(self, reg, backend, **kwargs)
+        # Gate.apply skips gates with p[0] == 0 as identities (also when a symbolic expression
+        # such as a - a has simplified to zero), but for phi_in = 0 the interferometer
+        # is not the identity
+        if np.all(self.p[0] == 0):
+            return Operation.apply(self, reg, backend, **kwargs)
+        return super().apply(reg, backend, **kwargs)
 
     def _apply(self, reg, backend, **kwargs):
         phi_in, phi_ex = par_evaluate(self.p)
